@@ -30,7 +30,13 @@ RULE = ("seeded random histories: 2-4 leaves (exact family: PersLandscapeExact f
         "diagrams and from explicit values= arrays of dtype int64 / float64 on equal and unequal grids, with different depth "
         "counts in all four dtype combinations and fractional values on the float side; exact landscapes also from "
         "critical_pairs given as Python ints vs floats; landscapes built with compute=False whose first use is an "
-        "operation, in both operand positions, against operands of other depth counts), then 6-12 operations (+, -, neg, c*, *c, "
+        "operation, in both operand positions, against operands of other depth counts; NEAR-TIES: exact landscapes whose "
+        "breakpoints would coincide between operands are moved apart by a per-leaf shift of 2^-8..2^-24 (exact family) / "
+        "1e-9..6e-6 relative (tolerance family), at common offsets 0, +-2^10, 2^12 / 1e3..1e5 and, in the exact family, scales "
+        "2^10 .. 2^-50 (all still dyadic with < 53 bits, compared exactly); NEAR-EQUAL GRIDS: grid landscapes whose start / "
+        "stop differ by 1 ulp .. 1e-7 relative, which must still be rejected as mismatched; tiny magnitudes: float values= "
+        "scaled by 2^-30 / 2^-40; SIZES: exact landscapes with 33..130 (thorough: ..520) breakpoints per depth and grids of "
+        "17..129 / 33..130 (thorough: ..1025) nodes, in short histories of 3-5 operations), then 6-12 operations (+, -, neg, c*, *c, "
         "/c; approximate also snap_pl, lc_approx, average_approx; plus degree / grid mismatches and division by "
         "0) reusing operands.  dyadic inputs are compared exactly, random doubles within 1e-9.  A history is "
         "non-trivial when a binary operation on two different operands, a re-sampling onto a different grid or "
@@ -51,6 +57,9 @@ ASSUMPTIONS = [
     "snap_pl outside the source grid: the property text does not fix the value; model and predicate use np.interp's "
     "constant extension (equal to 0 for landscapes built from diagrams on their default grid)",
     "lc_approx with a single coefficient for several landscapes (numpy broadcasting) is not modelled",
+    "class exact/tol/long (30+ random-double breakpoints per depth): the Coq model is NOT run (its unreduced rational "
+    "quotients exceed any time-out; verdict skip); the spec predicate is evaluated on them and the model runs on the "
+    "exact/exact/long histories of the same sizes",
     "leaves are taken as the critical_pairs / values the constructor produced (their correctness is C03 / C08)",
 ]
 TOL = Fraction(1, 10 ** 9)
@@ -167,7 +176,7 @@ def _near_leaf(rng, mode, pool):
 def _near_map(rng, mode, leaves):
     if mode == "exact":
         off = rng.choice([0.0, 0.0, 1024.0, 4096.0, -1024.0])
-        s = rng.choice([1.0, 1.0, 1.0, 2.0 ** -10, 2.0 ** -27, 2.0 ** -30, 2.0 ** 10])
+        s = rng.choice([1.0, 1.0, 2.0 ** -10, 2.0 ** -27, 2.0 ** -30, 2.0 ** -40, 2.0 ** -50, 2.0 ** 10])
         deltas = [0.0] + [rng.choice([-1, 1]) * 2.0 ** -rng.choice([8, 12, 16, 17, 20, 24]) for _ in leaves[1:]]
     else:
         off = rng.choice([0.0, 1e3, 1e4, 1e5, -1e3, 12345.678])
@@ -412,6 +421,14 @@ def _gen_approx(rng, mode, cls, big=False):
                            "values": _vals(rng, mode, g[2], rng.random() < 0.5, integer=(dt == "int64")),
                            "start": g[0], "stop": g[1], "num_steps": g[2], "hom_deg": deg})
         objs.append((g[0], g[1], g[2], deg))
+    if mode == "exact" and cls in ("samegrid", "mixed", "biggrid") and rng.random() < 0.35:
+        # tiny magnitudes: explicit float values scaled by a power of two (still exact); catches clean-ups that
+        # treat |v| below some epsilon as 0
+        sc = 2.0 ** -rng.choice([30, 40])
+        for l in leaves:
+            if l["kind"] == "vals" and l.get("dtype") != "int64":
+                l["values"] = [[v * sc for v in row] for row in l["values"]]
+                l["vscale"] = sc
     steps = []
     nsteps = rng.randint(6, 12) if cls != "biggrid" else rng.randint(3, 5)
 
